@@ -367,10 +367,16 @@ func c07Run(c *engine.Ctx) {
 			}
 		}
 		for _, hooks := range []bool{false, true} {
-			for _, ch := range c07Channels {
-				name, ch, hooks, entry, known := name, ch, hooks, entry, known
-				class := fmt.Sprintf("C07|%s|%s|hooks=%v", ch, c07Label(name), hooks)
-				c.Do(class, func() string { return fmt.Sprintf("type name %q through %s, hooks set: %v", name, ch, hooks) }, func(t *engine.T) {
+			for _, ch0 := range append(append([]string{}, c07Channels...), "bare:json-top", "bare:json-item", "bare:json-list", "bare:gob-top", "bare:gob-item", "bare:gob-list") {
+				// "bare:" channels: the value carries its id and type and NOTHING else (a collection without members, an activity without
+				// object, a place without coordinates): what it is does not depend on what it holds
+				bare := strings.HasPrefix(ch0, "bare:")
+				if bare && (!known || isUnknownName || name == "") {
+					continue
+				}
+				name, ch, hooks, entry, known := name, strings.TrimPrefix(ch0, "bare:"), hooks, entry, known
+				class := fmt.Sprintf("C07|%s|%s|hooks=%v", ch0, c07Label(name), hooks)
+				c.Do(class, func() string { return fmt.Sprintf("type name %q through %s, hooks set: %v", name, ch0, hooks) }, func(t *engine.T) {
 					t.Distinct(known && !isUnknownName)
 					if hooks {
 						defer c07SetHooks()()
@@ -380,6 +386,9 @@ func c07Run(c *engine.Ctx) {
 						structName = "Object"
 					}
 					r := c07Value(structName, name)
+					if bare {
+						r.Sets = nil
+					}
 					x := r.Item()
 					got, err := c07Through(ch, name, x)
 					t.Ops(2)
